@@ -85,6 +85,28 @@ def run(ctx) -> None:
     ctx.floor("unwind_scenarios", 312)
 
 
+
+
+_ALIASES: Dict[int, set] = {}
+
+
+def _is_stack(unit, e) -> bool:
+    """``self.<stack attribute>`` or a local that was assigned exactly that (``callbacks = self._exit_callbacks``)"""
+    if norm(e) == f"self.{STACK_ATTR}":
+        return True
+    if isinstance(e, ast.Name) and unit is not None:
+        key = id(unit.node)
+        if key not in _ALIASES:
+            names = {}
+            for st in own_nodes(unit.node):
+                if isinstance(st, ast.Assign) and len(st.targets) == 1 and isinstance(st.targets[0], ast.Name):
+                    names.setdefault(st.targets[0].id, []).append(norm(st.value))
+                elif isinstance(st, ast.AnnAssign) and isinstance(st.target, ast.Name) and st.value is not None:
+                    names.setdefault(st.target.id, []).append(norm(st.value))
+            _ALIASES[key] = {k for k, v in names.items() if v == [f"self.{STACK_ATTR}"]}
+        return e.id in _ALIASES[key]
+    return False
+
 # --------------------------------------------------------------------------- R14.1
 def r14_1(ctx) -> str:
     _derive_stack_attr(ctx)
@@ -96,7 +118,7 @@ def r14_1(ctx) -> str:
             raise AnalysisError(f"ExitStack.{mname} missing (anchor moved)")
         m = ctx.inlined(m)  # the registration itself may sit in a private helper of the stack
         sites = [n for n in own_nodes(m.node) if isinstance(n, ast.Call) and isinstance(n.func, ast.Attribute)
-                 and norm(n.func.value) == f"self.{STACK_ATTR}" and n.func.attr in ("append", "appendleft", "insert", "extend")]
+                 and _is_stack(m, n.func.value) and n.func.attr in ("append", "appendleft", "insert", "extend")]
         for s in sites:
             ctx.count("registration_sites")
             ends[(mname, s.lineno)] = {"append": "right", "appendleft": "left"}.get(s.func.attr, "?")  # type: ignore[union-attr]
@@ -457,7 +479,7 @@ class _EnterOps:
         return UNKNOWN
 
     def call(self, func, args, kwargs, node, env):
-        if func.split(".")[-1] == "awaitify" and len(args) == 1:
+        if func.split(".")[-1].lstrip("_") == "awaitify" and len(args) == 1:  # (whatever the import alias)
             return ("awaitified", args[0])
         if isinstance(node.func, ast.Attribute) and node.func.attr in ("__enter__", "__aenter__"):
             return ("entered", node.func.attr)
@@ -467,8 +489,8 @@ class _EnterOps:
         kind = self._is_enter(node)
         if kind:
             env["@entered"] = env.get("@entered", ()) + (kind,)
-        if node.kind == "call" and isinstance(node.ast.func, ast.Attribute) and norm(node.ast.func.value) == f"self.{STACK_ATTR}" \
-                and node.ast.func.attr in ("append", "appendleft"):
+        if node.kind == "call" and isinstance(node.ast.func, ast.Attribute) and node.ast.func.attr in ("append", "appendleft") \
+                and ev.eval(node.ast.func.value, env) == ("self", STACK_ATTR):  # (the stack itself, or a local holding it)
             arg = ev.eval(node.ast.args[0], env) if node.ast.args else UNKNOWN
             env["@registered"] = env.get("@registered", ()) + ((arg, env.get("@entered", ())),)
 
@@ -544,7 +566,7 @@ def _callback_runner(ctx):
     mcfg = cfg_of(m)
     for r in mcfg.nodes:
         if r.kind == "call" and not r.tag and isinstance(r.ast.func, ast.Attribute) \
-                and norm(r.ast.func.value) == f"self.{STACK_ATTR}" and r.ast.args:
+                and _is_stack(m, r.ast.func.value) and r.ast.args:
             e = inline_locals(ctx, m, mcfg, r, r.ast.args[0])
             if isinstance(e, ast.Call) and e.args:
                 for f in ctx.vals.expr(m, e.args[0], r):
@@ -561,7 +583,7 @@ def _callback_closure(ctx):
     mcfg = cfg_of(m)
     for r in mcfg.nodes:
         if r.kind == "call" and not r.tag and isinstance(r.ast.func, ast.Attribute) \
-                and norm(r.ast.func.value) == f"self.{STACK_ATTR}" and len(r.ast.args) == 1 \
+                and _is_stack(m, r.ast.func.value) and len(r.ast.args) == 1 \
                 and isinstance(r.ast.args[0], ast.Name):
             for t in m.module.units.values():
                 if t.parent is m and t.node.name == r.ast.args[0].id and t.kind == "coroutine":
@@ -578,7 +600,7 @@ def _r14_5_closure(ctx, u, reg) -> None:
     va = m.node.args.vararg.arg if m.node.args.vararg else None
     kw = m.node.args.kwarg.arg if m.node.args.kwarg else None
     regs = [n for n in mcfg.nodes if n.kind == "call" and not n.tag and isinstance(n.ast.func, ast.Attribute)
-            and norm(n.ast.func.value) == f"self.{STACK_ATTR}" and n.ast.args]
+            and _is_stack(m, n.ast.func.value) and n.ast.args]
     ctx.check(len(regs) == 1, "R14.5", m, "callback", "callback() registers one exit")
     cfg = cfg_of(u)
     own = set(u.param_names()) | {x.id for x in own_nodes(u.node) if isinstance(x, ast.Name) and isinstance(x.ctx, ast.Store)}
@@ -596,6 +618,14 @@ def _r14_5_closure(ctx, u, reg) -> None:
             ok = wrapped and len(call.args) == 1 and isinstance(call.args[0], ast.Starred) and norm(call.args[0].value) == va \
                 and va not in own and kw not in own \
                 and len(call.keywords) == 1 and call.keywords[0].arg is None and norm(call.keywords[0].value) == kw
+            if not ok and not call.args and not call.keywords and isinstance(f, ast.Call) \
+                    and ctx.pkg.resolve_expr_global(m.module, f.func).qual == "functools.partial" and f.args:
+                # the arguments were bound beforehand: ``bound = partial(awaitify(callback), *args, **kwargs)``
+                g = f.args[0]
+                ok = isinstance(g, ast.Call) and ctx.pkg.resolve_expr_global(m.module, g.func).qual.endswith("_core.awaitify") \
+                    and len(g.args) == 1 and norm(g.args[0]) == cbp and len(f.args) == 2 and isinstance(f.args[1], ast.Starred) \
+                    and norm(f.args[1].value) == va and len(f.keywords) == 1 and f.keywords[0].arg is None \
+                    and norm(f.keywords[0].value) == kw
         ctx.check(bool(ok), "R14.5", u, awaits[0] if awaits else u.node.name,
                   "the (awaitified) callback is awaited exactly once with *args and **kwargs unchanged")
         rets = [n for n in nodes if n.kind == "return"]
@@ -618,7 +648,7 @@ def _callback_factory(ctx):
     mcfg = cfg_of(m)
     for r in mcfg.nodes:
         if r.kind == "call" and not r.tag and isinstance(r.ast.func, ast.Attribute) \
-                and norm(r.ast.func.value) == f"self.{STACK_ATTR}" and len(r.ast.args) == 1:
+                and _is_stack(m, r.ast.func.value) and len(r.ast.args) == 1:
             e = inline_locals(ctx, m, mcfg, r, r.ast.args[0])
             if not (isinstance(e, ast.Call) and len(e.args) == 1 and not e.keywords):
                 continue
@@ -658,7 +688,7 @@ def _r14_5_factory(ctx, factory, w, reg, arg, fparam) -> None:
     m = ctx.unit("contextlib.ExitStack.callback")
     mcfg = cfg_of(m)
     regs = [n for n in mcfg.nodes if n.kind == "call" and not n.tag and isinstance(n.ast.func, ast.Attribute)
-            and norm(n.ast.func.value) == f"self.{STACK_ATTR}" and n.ast.args]
+            and _is_stack(m, n.ast.func.value) and n.ast.args]
     ctx.check(len(regs) == 1, "R14.5", m, "callback", "callback() registers one exit")
     cfg = cfg_of(w)
     own = set(w.param_names()) | {x.id for x in own_nodes(w.node) if isinstance(x, ast.Name) and isinstance(x.ctx, ast.Store)}
@@ -719,7 +749,7 @@ def r14_5(ctx) -> None:
     kw = m.node.args.kwarg.arg if m.node.args.kwarg else None
     from .common import inline_locals
     regs = [n for n in mcfg.nodes if n.kind == "call" and not n.tag and isinstance(n.ast.func, ast.Attribute)
-            and norm(n.ast.func.value) == f"self.{STACK_ATTR}" and n.ast.args]
+            and _is_stack(m, n.ast.func.value) and n.ast.args]
     ctx.check(len(regs) == 1, "R14.5", m, "callback", "callback() registers one exit")
     for r in regs:
         e = inline_locals(ctx, m, mcfg, r, r.ast.args[0])
